@@ -4,7 +4,7 @@ SPEC = {
     "lean_modules": ["SemaModel.C17.Props"],
     "lean_dirs": ["SemaModel/C17"],
     "harness": "c17",
-    "harness_args": {"quick": ["-n", 400, "-big", 15, "-curate", 3000], "thorough": ["-n", 3000, "-big", 100, "-curate", 50000]},
+    "harness_args": {"quick": ["-n", 400, "-big", 15, "-curate", 3000, "-fault", 24], "thorough": ["-n", 3000, "-big", 100, "-curate", 50000, "-fault", 160]},
     "timeout": {"quick": 900, "thorough": 3000},
     "level": "proof",
     "tie": "T3: go/cmd/c17 builds fresh clusters of 1..3 real in-process servers (NewNode + Serve on loopback) with small per-shard point limits (1..8 shards per collection), drives insert / update / delete / search through every live entry node, stops one server in many scenarios, and runs the Lean model on the same op lines; what is an oracle for the model (placement of inserted points, each shard's answer to a query) is read from the shards directly; the property oracles are evaluated on the real responses; the real curateFailedPoints is also called directly through cluster/verif_export.go. T2: Generated/FactsC17.lean pins the constants (as float32 bit patterns, used by the driver) and the expression text of the per-shard limit, the offset rule, the cut and the score comparison of ClusterNode.SearchPoints",
@@ -15,6 +15,8 @@ SPEC = {
         "Sema.C17.C17_once_count_update", "Sema.C17.C17_once_count_delete",
         "Sema.C17.C17_search", "Sema.C17.C17_search_unavailable", "Sema.C17.C17_search_all",
         "Sema.C17.C17_sort_score", "Sema.C17.C17_sort_keys",
+        "Sema.C17.C17_route_nil", "Sema.C17.C17_routed_up", "Sema.C17.C17_route_unreachable", "Sema.C17.C17_route_zero_retries",
+        "Sema.C17.C17_failed_message_routed",
     ],
     "trusted_base": [
         "the hand-written model SemaModel/C17/Model.lean (transcription of cluster/actions.go UpdatePoints, DeletePoints, curateFailedPoints incl. the loop of slices.BinarySearchFunc, SearchPoints); mitigated by the line-by-line correspondence on real clusters",
@@ -36,7 +38,7 @@ def search(ctx):
     r = ctx["runner"]
     out = os.path.join(ctx["rundir"], "search")
     n = "600" if ctx["tier"] == "quick" else "3000"
-    rc, o, dt = r.sh([ctx["hbin"], "-seed", str(ctx["seed"] + 7919), "-n", n, "-big", "20", "-curate", "20000", "-out", out], env=r.GOENV, timeout=2400)
+    rc, o, dt = r.sh([ctx["hbin"], "-seed", str(ctx["seed"] + 7919), "-n", n, "-big", "20", "-curate", "20000", "-fault", "48", "-out", out], env=r.GOENV, timeout=2400)
     sp = os.path.join(out, "stats.json")
     if not os.path.exists(sp):
         return None
